@@ -355,6 +355,8 @@ type PrintOptions struct {
 	Code   CodeFunc // code for code blocks
 	Arrow  []string // rule definition operators to cycle through (default "<-")
 	Semi   bool     // terminate rules with ';'
+	// JoinLines puts several rules on one source line, separated by ';'.
+	JoinLines bool
 }
 
 func quoteLit(s string) string {
@@ -552,6 +554,10 @@ func (g *Grammar) Print(po PrintOptions) string {
 		}
 		b.WriteString(" " + arrows[i%len(arrows)] + " ")
 		g.printExpr(r.Expr, 0, &po, &b)
+		if po.JoinLines && i%3 != 2 && i+1 < len(g.Rules) {
+			b.WriteString(" ; ")
+			continue
+		}
 		if po.Semi {
 			b.WriteString(";")
 		}
